@@ -46,6 +46,15 @@ ERRORS = {
     "unterminated-string-any-content": (".ascii '??", "scan", [7, 10]),
 }
 
+WRAPS = {
+    "macro": (".macro em(zz) {", "}\nem(1)"),
+    "macro-twice": (".macro em(zz) {", "}\nnop\nem(1)\nem(2)"),
+    "loop": (".for li := 0, 2 {", "}"),
+    "block": ("{", "}"),
+    "scope": (".scope es {", "}"),
+    "if": (".if 1 {", "}"),
+    "else": (".if 0 {\nnop\n} else {", "}"),
+}
 NONL = [c for c in range(256) if c != 10]
 STRCHARS = [c for c in range(256) if c not in (10, 0x27)]
 
@@ -77,6 +86,14 @@ def jobs(tier, seed):
                         if where == "included" and bi not in (0, 2):
                             continue
                         out.append({"id": f"b{bi}/at{pt}/{ek}/{pre}/{where}", "base": bi, "at": pt, "err": ek, "pre": pre, "where": where, "n": n})
+    # the faulty statement inside a construct (the location is that of the statement itself, also when
+    # the construct is expanded elsewhere: macro body, loop body)
+    for bi in (0, 2):
+        for pt in insertion_points(BASES[bi])[:2] + insertion_points(BASES[bi])[-1:]:
+            for ek in ("undef-operand", "undef-data", "bad-index", "unterminated-string"):
+                for w in WRAPS:
+                    for where in ("main", "included"):
+                        out.append({"id": f"b{bi}/at{pt}/{ek}/in-{w}/{where}", "base": bi, "at": pt, "err": ek, "pre": "linecomment", "where": where, "n": n, "wrap": w})
     if tier == "thorough":
         for bi in (0, 2):
             for pt in insertion_points(BASES[bi])[:3]:
@@ -122,11 +139,15 @@ def build(spec, cx):
     stmt = ERRORS[spec["err"]][0]
     pre = preamble(spec, cx)
     chars = [ord(c) for c in head] + pre
+    closing = ""
+    if spec.get("wrap"):
+        open_, closing = WRAPS[spec["wrap"]]
+        chars += [ord(c) for c in open_ + "\n"]
     idx = len(chars)
     body = []
     for k, c in enumerate(stmt):
         body.append(cx.char(f"q{k}", STRCHARS) if c == "?" else ord(c))
-    chars += body + [10] + [ord(c) for c in tail]
+    chars += body + [10] + [ord(c) for c in (closing + "\n" if closing else "")] + [ord(c) for c in tail]
     return chars, idx, body
 
 
